@@ -1541,3 +1541,25 @@ Proof.
   exact (plan_properties (c_dcf cl) (c_rackf cl) (c_ring cl) (c_keyspaces cl) (c_enabled cl) (c_connected cl)
            (ring_shf cl t) (ex_pol cfg) rq Hs Hk cho (node_shuf cl t shufp) Hp Hc).
 Qed.
+
+(* ---- the acceptor of the pool tie ---------------------------------------------------------- *)
+Lemma accept_conn_shard_sound p want sh : accept_conn_shard p want sh = true ->
+  pool_has_shard p sh = true /\
+  (pool_sharder p <> None -> pool_has_shard p (shard_u16 want) = true -> sh = shard_u16 want).
+Proof.
+  unfold accept_conn_shard. intros H. apply andb_true_iff in H. destruct H as [H1 H2].
+  split; [assumption|]. intros Hs Hh. destruct (pool_sharder p); [|congruence].
+  rewrite Hh in H2. now apply N.eqb_eq.
+Qed.
+
+Lemma accept_conn_shard_complete cho p want c : pool_wf p ->
+  connection_for_shard cho p want = Some c -> cho_ok cho -> accept_conn_shard p want (conn_shard c) = true.
+Proof.
+  intros Hwf Hc Hcho. assert (Hnd : p <> PoolDown) by (intros ->; discriminate).
+  destruct (connection_for_shard_spec cho p want Hcho Hwf Hnd) as (c' & Ec & Hin & Hsh).
+  rewrite Hc in Ec. injection Ec as <-. unfold accept_conn_shard. apply andb_true_iff. split.
+  - apply pool_has_shard_spec. exists c. tauto.
+  - destruct (pool_sharder p) eqn:Es; [|reflexivity].
+    destruct (pool_has_shard p (shard_u16 want)) eqn:Eh; [|reflexivity].
+    apply N.eqb_eq. apply Hsh; [congruence|reflexivity].
+Qed.
